@@ -244,7 +244,7 @@ def run_point(p: Dict[str, Any], verbose: bool = False) -> Tuple[Optional[Dict[s
         zc, azc = host.zc, host.azc
         w.loop.advance_to(int(t0 * 1000) + p["close_at_us"])
         t_req = w.now_ms
-        registered = {k: v for k, v in zc.registry._services.items()}
+        registered = {i.name.lower(): i for i in zc.registry.async_get_service_infos()}
         reg_descs = [s for s in (S1, S2) if s.name.lower() in registered]
         n_trace = len(w.net.trace)
         if p["mode"] == "async_close":
